@@ -82,10 +82,12 @@ async fn participant(sd: Arc<Mutex<Shutdown>>, log: Log, i: usize, start_delay: 
     drop(guard);
 }
 
-async fn submit_and_wait(sd: Arc<Mutex<Shutdown>>, log: Log, delay: usize, wait_delay: usize) {
+async fn submit_and_wait(sd: Arc<Mutex<Shutdown>>, log: Log, delay: usize, wait_delay: usize, submits: usize) {
     for _ in 0..delay { yield_now().await; }
     sd.lock().unwrap().submit();
     log.lock().unwrap().push(E::Submitted);
+    // a shutdown may be submitted more than once (a second interrupt): the notification is still one notification
+    for _ in 1..submits { yield_now().await; sd.lock().unwrap().submit(); }
     for _ in 0..wait_delay { yield_now().await; }
     log.lock().unwrap().push(E::WaitStart);
     #[allow(clippy::await_holding_lock)]
@@ -100,6 +102,8 @@ struct Scenario {
     participants: Vec<(usize, usize, usize)>, // (start delay, work length, steps between registration and the first wait)
     submit_delay: usize,
     wait_delay: usize,
+    /// how many times the shutdown is submitted (>= 1)
+    submits: usize,
 }
 
 /// Run one schedule given by `tape`; returns (event log, branching factors met)
@@ -110,7 +114,7 @@ fn run_schedule(sc: &Scenario, tape: &[usize]) -> (Vec<E>, Vec<usize>, bool) {
     for (i, (d, w, pw)) in sc.participants.iter().enumerate() {
         tasks.push(Some(Box::pin(participant(sd.clone(), log.clone(), i, *d, *w, *pw))));
     }
-    tasks.push(Some(Box::pin(submit_and_wait(sd.clone(), log.clone(), sc.submit_delay, sc.wait_delay))));
+    tasks.push(Some(Box::pin(submit_and_wait(sd.clone(), log.clone(), sc.submit_delay, sc.wait_delay, sc.submits))));
     let ready = Arc::new(Mutex::new(vec![true; tasks.len()]));
     let wakers: Vec<Waker> = (0..tasks.len()).map(|id| Waker::from(Arc::new(TaskWaker { id, ready: ready.clone() }))).collect();
     let mut branching = vec![];
@@ -190,12 +194,16 @@ fn executor_part(rep: &Arc<Reporter>, args: &Args) {
     let mut scenarios = vec![];
     for p in 1..=2usize {
         for sd in 0..=2usize { for wd in 0..=1usize { for w in [0usize, 1, 3, usize::MAX] { for st in [0usize, 1] { for pw in [0usize, 1, 2] {
-            scenarios.push(Scenario { participants: (0..p).map(|i| (if i == 0 { 0 } else { st }, if w == usize::MAX { w } else { w + i }, if i == 0 { pw } else { 0 })).collect(), submit_delay: sd, wait_delay: wd });
+            scenarios.push(Scenario { participants: (0..p).map(|i| (if i == 0 { 0 } else { st }, if w == usize::MAX { w } else { w + i }, if i == 0 { pw } else { 0 })).collect(), submit_delay: sd, wait_delay: wd, submits: 1 });
         } } } } }
     }
+    // repeated submissions (a receiver that has not polled yet lags behind the channel)
+    for p in 1..=2usize { for submits in [2usize, 3] { for pw in [0usize, 1, 2] { for w in [1usize, usize::MAX] { for sd in [0usize, 1] {
+        scenarios.push(Scenario { participants: (0..p).map(|i| (0, w, if i == 0 { pw } else { 2 - pw })).collect(), submit_delay: sd, wait_delay: 0, submits });
+    } } } } }
     // three participants, bounded depth by the global cap
-    scenarios.push(Scenario { participants: vec![(0, 1, 1), (0, 2, 0), (1, 0, 2)], submit_delay: 1, wait_delay: 0 });
-    scenarios.push(Scenario { participants: vec![(0, 0, 0), (1, 3, 1), (2, 1, 0)], submit_delay: 0, wait_delay: 1 });
+    scenarios.push(Scenario { participants: vec![(0, 1, 1), (0, 2, 0), (1, 0, 2)], submit_delay: 1, wait_delay: 0, submits: 1 });
+    scenarios.push(Scenario { participants: vec![(0, 0, 0), (1, 3, 1), (2, 1, 0)], submit_delay: 0, wait_delay: 1, submits: 2 });
     let per_scenario = cap / scenarios.len() as u64;
     for (si, sc) in scenarios.iter().enumerate() {
         let mut tape: Vec<usize> = vec![];
@@ -211,7 +219,7 @@ fn executor_part(rep: &Arc<Reporter>, args: &Args) {
             if log.iter().any(|e| matches!(e, E::Notified(_))) { *tallies.entry("schedules where a participant observed the notification").or_insert(0) += 1; }
             if log.iter().any(|e| matches!(e, E::Registered(_, false))) { *tallies.entry("schedules with a participant registering after completion started (no guard)").or_insert(0) += 1; }
             for b in judge_schedule(sc, &log) {
-                bad.entry(b).or_insert_with(|| json!({"kind":"shutdown-schedule","scenario":{"participants":sc.participants,"submit_delay":sc.submit_delay,"wait_delay":sc.wait_delay},"choices":tape.clone(),"events":log.iter().map(|e| format!("{:?}", e)).collect::<Vec<_>>()}));
+                bad.entry(b).or_insert_with(|| json!({"kind":"shutdown-schedule","scenario":{"participants":sc.participants,"submit_delay":sc.submit_delay,"wait_delay":sc.wait_delay,"submissions":sc.submits},"choices":tape.clone(),"events":log.iter().map(|e| format!("{:?}", e)).collect::<Vec<_>>()}));
             }
             if rep.want_sample() && n == 3 { rep.sample(json!({"scenario": si, "choices": tape.clone(), "events": log.iter().map(|e| format!("{:?}", e)).collect::<Vec<_>>()})); }
             // next tape (DFS): extend with zeros implicitly; increment the last position that can
@@ -240,7 +248,7 @@ fn executor_part(rep: &Arc<Reporter>, args: &Args) {
     let mut walk_bad: BTreeMap<String, Value> = BTreeMap::new();
     for _ in 0..walks {
         let p = r.range(3, 8) as usize;
-        let sc = Scenario { participants: (0..p).map(|_| (r.below(3) as usize, if r.chance(1, 4) { usize::MAX } else { r.below(5) as usize }, r.below(3) as usize)).collect(), submit_delay: r.below(6) as usize, wait_delay: r.below(3) as usize };
+        let sc = Scenario { participants: (0..p).map(|_| (r.below(3) as usize, if r.chance(1, 4) { usize::MAX } else { r.below(5) as usize }, r.below(3) as usize)).collect(), submit_delay: r.below(6) as usize, wait_delay: r.below(3) as usize, submits: 1 + (r.below(4) as usize) / 2 };
         let tape: Vec<usize> = (0..200).map(|_| r.below(8) as usize).collect();
         let (log, _, _) = run_schedule(&sc, &tape);
         for b in judge_schedule(&sc, &log) { walk_bad.entry(b).or_insert_with(|| json!({"kind":"shutdown-walk","participants":sc.participants,"events":log.iter().map(|e| format!("{:?}", e)).collect::<Vec<_>>()})); }
